@@ -83,7 +83,7 @@ ResolveConfs == { Conf(fns, ns, imps, name, "none") : fns \in FnFamilies, ns \in
 Flaws == {"duplicate-function", "duplicate-function-in-submodule", "same-name-in-two-modules-is-fine",
           "bad-function-name-dot", "bad-function-name-empty", "bad-function-name-super", "bad-function-name-dash",
           "bad-module-name-dot", "bad-module-name-empty", "bad-module-name-super", "user-module-std", "duplicate-module",
-          "no-main"}
+          "duplicate-module-nested", "duplicate-module-below-a", "no-main"}
 FlawConfs == { Conf({<<"f">>, <<"a", "f">>}, <<>>, {}, <<"f">>, fl) : fl \in Flaws }
 FlawExpected(c) == IF c.flaw = "same-name-in-two-modules-is-fine" THEN {Run(<<"f">>)} ELSE {Cerr}
 
